@@ -189,35 +189,56 @@ theorem type_switch_as_modelled :
     (∀ fixed w op r, bitmapBinop fixed w op r .nonDuplex = some r) := by
   refine ⟨by decide, fun _ => rfl, fun _ _ => rfl, rfl, rfl, fun _ _ _ _ => rfl⟩
 
+/-- **API completeness.** Every method of the `Duplex` interface is an operation of the model; every exact provider
+(`bitmap32`, `bitmap64`, `threadSafeDuplex`) implements all of them and has no other method except the listed
+exempt one (`Iterator`); the one-way providers implement exactly `Simplex`; every type of package `cardinality` that
+has methods is one of these, a pinned combinator of commutative.go, or a listed exempt adapter. Regenerated from the
+source on every run: a new interface method, implementation method or type breaks this obligation. -/
+theorem api_complete : Facts.apiComplete Generated.C13.interfaces Generated.C13.implMethods = true := by decide
+
+/-- commutative.go: `DuplexCommutation.Contains` is membership in the union of its members and
+`CommutativeDuplexes.Contains` is "in some `or` commutation and in every `and` commutation", for all member sets. -/
+theorem commutative_contains (ors ands : List (List S)) (dc : List S) (v : Nat) :
+    (commContains dc v = true ↔ ∃ d ∈ dc, v ∈ d) ∧
+    (commDuplexesContains ors ands v = true ↔ (∃ dc ∈ ors, ∃ d ∈ dc, v ∈ d) ∧ (∀ dc ∈ ands, ∃ d ∈ dc, v ∈ d)) :=
+  ⟨commContains_iff, commDuplexesContains_iff⟩
+
 /-! ### the lock-level LTS -/
 
 /-- one call of a caller's program: method `name` of the duplex wrapper with mutex `recv`; `operand = some o` when
 the operand is itself the wrapper with mutex `o` (possibly `o = recv`) -/
 structure Item (D R : Type) where
+  /-- "threadSafeDuplex" or "threadSafeSimplex" -/
+  wrapper : String := "threadSafeDuplex"
   name : String
   recv : Nat
   operand : Option Nat
   f : D → D → D × R
 
-/-- only the four binary operations take an operand -/
+/-- a method of that wrapper type; only the binary operations (`Or` for the simplex wrapper) take an operand -/
 def Item.WellFormed {D R : Type} (it : Item D R) : Prop :=
-  it.name ∈ Facts.duplexMethods ∧ (it.operand ≠ none → it.name ∈ Facts.binaryMethods)
+  (it.wrapper = "threadSafeDuplex" ∨ it.wrapper = "threadSafeSimplex") ∧
+  it.name ∈ Facts.methodsOf it.wrapper ∧ (it.operand ≠ none → it.name ∈ Facts.operandMethodsOf it.wrapper)
 
 /-- the LTS call of an item: whether the body holds the lock, whether a wrapper operand is snapshotted before the
 lock is taken, and whether the snapshot is taken under the operand's lock are READ FROM THE REGENERATED TABLE of
 lock.go -/
 def tableCall {D R : Type} (it : Item D R) : Call D R :=
   { recv := it.recv, operand := it.operand, cbs := 1,
-    locked := Facts.lockedIn Generated.C13.wrapperMethods it.name,
+    locked := Facts.lockedIn Generated.C13.wrapperMethods it.name it.wrapper,
     opLocked := Facts.snapshotLocks Generated.C13.snapshotCases,
-    snapshot := Facts.snapshotsIn Generated.C13.wrapperMethods it.name,
+    snapshot := Facts.snapshotsIn Generated.C13.wrapperMethods it.name it.wrapper,
     f := it.f }
 
 theorem tableCall_good {D R : Type} (it : Item D R) (h : it.WellFormed) : Good (tableCall it) := by
-  have hall : Facts.duplexMethods.all (Facts.lockedIn Generated.C13.wrapperMethods) = true := by decide
-  have hbin : Facts.binaryMethods.all (Facts.snapshotsIn Generated.C13.wrapperMethods) = true := by decide
+  have hall : ∀ w, w = "threadSafeDuplex" ∨ w = "threadSafeSimplex" →
+      (Facts.methodsOf w).all (fun n => Facts.lockedIn Generated.C13.wrapperMethods n w) = true := by
+    rintro w (rfl | rfl) <;> decide
+  have hbin : ∀ w, w = "threadSafeDuplex" ∨ w = "threadSafeSimplex" →
+      (Facts.operandMethodsOf w).all (fun n => Facts.snapshotsIn Generated.C13.wrapperMethods n w) = true := by
+    rintro w (rfl | rfl) <;> decide
   have hsnap : Facts.snapshotLocks Generated.C13.snapshotCases = true := by decide
-  exact ⟨fun ho => List.all_eq_true.1 hbin it.name (h.2 ho), List.all_eq_true.1 hall it.name h.1, hsnap⟩
+  exact ⟨fun ho => List.all_eq_true.1 (hbin _ h.1) it.name (h.2.2 ho), List.all_eq_true.1 (hall _ h.1) it.name h.2.1, hsnap⟩
 
 /-- Linearizability of the wrappers, arbitrary operands (other wrappers, the receiver itself): for all programs of
 calls of the interface on any number of wrappers and every state reachable under ANY interleaving of their atomic
